@@ -451,6 +451,21 @@ def prog():
     backend.prove()
     return out
 """, {"a": lambda c: SymInt(z3.Int("s_a")), "b": lambda c: SymInt(z3.Int("s_b"))}),
+        # structured arguments and results: a LIST OF PAIRS goes in, a list comes out -- every secret in the structure,
+        # however it is nested (tuples inside lists, lists inside tuples), is an argument of the call
+        "list_of_pairs_argument": ("""
+def prog():
+    @subqap("dots")
+    def dots(ps, extra):
+        return [pr[0] * pr[1] for pr in ps] + [extra[0][0] * extra[1]]
+    p = PrivVal(a)
+    q = PrivVal(b)
+    r1 = dots([(p, q), (q, p + 1)], ([p], q))
+    r2 = dots([(p + 2, q), (r1[0], r1[1])], ([q], r1[2]))
+    out = (r2[0] + r2[1] + r2[2]).val()
+    backend.prove()
+    return out
+""", {"a": lambda c: SymInt(z3.Int("s_a")), "b": lambda c: SymInt(z3.Int("s_b"))}),
         # an external block imported right after a sub-circuit call: auto-generated block names must not collide
         "import_after_call": ("""
 def prog():
@@ -554,7 +569,8 @@ def prog():
 
     # per program: sub-circuit function -> (secret arguments, secret results, calls)
     FUNCS = {"square_twice": {"sq": (1, 1, 2)}, "inconsistent_calls": {"chk": (1, 1, 2)},
-             "no_arguments_two_results": {"gen": (0, 2, 2)}, "scaled_and_constant_arguments": {"sc": (1, 1, 3)}, "import_after_call": {"sq": (1, 1, 2)}, "call_is_last_statement": {"sq": (1, 1, 2)}, "passthrough_result": {"rnd": (2, 2, 2)}, "similar_function_names": {"scale+2": (1, 1, 2), "scale*2": (1, 1, 2)}, "plain_and_secret_arguments": {"mix": (2, 1, 2)}}
+             "no_arguments_two_results": {"gen": (0, 2, 2)}, "scaled_and_constant_arguments": {"sc": (1, 1, 3)}, "import_after_call": {"sq": (1, 1, 2)}, "call_is_last_statement": {"sq": (1, 1, 2)}, "passthrough_result": {"rnd": (2, 2, 2)}, "similar_function_names": {"scale+2": (1, 1, 2), "scale*2": (1, 1, 2)}, "plain_and_secret_arguments": {"mix": (2, 1, 2)},
+             "list_of_pairs_argument": {"dots": (6, 3, 2)}}
 
     def extra(self, c, r, wires, io, eqs, directives):
         p = self.prime
